@@ -80,6 +80,7 @@ func loopBodyEntry(f *ssa.Function, inBody ssa.Instruction) (*ssa.BasicBlock, *s
 }
 
 func checkC10(p *load.Program, r *kit.Report) {
+	importRules(p, r, "C09", "Clean rewrites the header files: anything the lookups cache from them must be refreshed", 1, nil, "NEW-STATE")
 	importRules(p, r, "C11", "clean writes the best chain and the branches to storage and then drops them from memory: history stays retrievable only if the files have the layout the readers expect", 2,
 		func(o *kit.Obligation) bool {
 			return o.Rule != "MERGE-SHAPE" || strings.HasPrefix(o.Construct, "Branch.Save")
